@@ -59,8 +59,9 @@ static int ref_utf8_wellformed(const unsigned char *s, unsigned n)
     return 1;
 }
 
-/* local-part = word *("." word) ; word = atom / quoted-string */
-static int ref_local(int mode, const unsigned char *s, unsigned n)
+/* local-part = word *("." word) ; word = atom / quoted-string  (recursive-descent formulation,
+ * kept to cross-check the single-pass one below: harness/ref_selfcheck.c) */
+static int ref_local_rd(int mode, const unsigned char *s, unsigned n)
 {
     unsigned i = 0;
     if (mode == RM_6531 && !ref_utf8_wellformed(s, n))
@@ -119,6 +120,48 @@ static int ref_local(int mode, const unsigned char *s, unsigned n)
         if (s[i] != '.') return 0;          /* a word is followed only by a dot or the end */
         i++;
     }
+}
+
+/* the same language as one pass over the bytes (formula size linear in n: used by every harness) */
+static int ref_local(int mode, const unsigned char *s, unsigned n)
+{
+    enum { WORD_START, ATOM, QUOTED, AFTER_QUOTE } st = WORD_START;
+    unsigned i, skip = 0;
+    int esc = 0;
+    if (mode == RM_6531 && !ref_utf8_wellformed(s, n))
+        return 0;
+    for (i = 0; i < n; i++) {
+        unsigned c = s[i];
+        if (skip) { skip--; continue; }            /* LF and SP/HT of an RFC 822 fold, already checked */
+        if (st == WORD_START) {
+            if (c == '"') st = QUOTED;
+            else if (ref_atext(mode, c)) st = ATOM;
+            else return 0;
+        } else if (st == ATOM) {
+            if (c == '.') st = WORD_START;
+            else if (!ref_atext(mode, c)) return 0;
+        } else if (st == AFTER_QUOTE) {
+            if (c == '.') st = WORD_START;         /* a word is followed only by a dot or the end */
+            else return 0;
+        } else if (esc) {
+            if (mode == RM_5321 || mode == RM_6531) { if (c < 0x20 || c > 0x7e) return 0; }
+            else if (c >= 0x80) return 0;
+            esc = 0;
+        } else if (c == '"') st = AFTER_QUOTE;
+        else if (c == '\\') esc = 1;
+        else if (c >= 0x80) { if (mode != RM_6531) return 0; }
+        else if (mode == RM_5321 || mode == RM_6531) { if (c < 0x20 || c == 0x7f) return 0; }
+        else if (mode == RM_822) {
+            if (c == '\r') {
+                if (!(i + 2 < n && s[i + 1] == '\n' && (s[i + 2] == ' ' || s[i + 2] == '\t'))) return 0;
+                skip = 2;
+            }
+        } else if (ref_ws(c)) {
+            int ok = (s[i - 1] == '"' || ref_ws(s[i - 1])) || (i + 1 < n && (s[i + 1] == '"' || ref_ws(s[i + 1])));
+            if (!ok) return 0;
+        }
+    }
+    return st == ATOM || st == AFTER_QUOTE;
 }
 
 #endif
